@@ -8,7 +8,15 @@ ID = "C05"
 LEVEL = "proof"
 HARNESSES = [
     {"name": "checks", "src": "harness.cpp", "flags": ["-O1", "-DTETL_ENABLE_CONTRACT_CHECKS=1"]},
-    {"name": "safe", "src": "harness.cpp", "flags": ["-O1", "-DTETL_ENABLE_CONTRACT_CHECKS_SAFE=1"], "env": {"VERIF_C05_SAFE": "1"}},
+    {"name": "safe", "src": "harness.cpp", "flags": ["-O1", "-DTETL_ENABLE_CONTRACT_CHECKS_SAFE=1"],
+     "env": {"VERIF_C05_SAFE": "1", "VERIF_C05_CHECKS": "0"}},
+    # BOTH macros defined (what tests/CMakeLists.txt passes when both CMake options are ON): everything is checked, the
+    # SAFE checks included - all probes, with the model of the SAFE level
+    {"name": "both", "src": "harness.cpp", "flags": ["-O1", "-DTETL_ENABLE_CONTRACT_CHECKS=1", "-DTETL_ENABLE_CONTRACT_CHECKS_SAFE=1"],
+     "env": {"VERIF_C05_SAFE": "1", "VERIF_C05_CHECKS": "1"}},
+    # NEITHER macro defined: nothing may fire. Runs only the `mode 0 0 ...` probes (harmless without the checks); every
+    # other probe prints `skip` in this build
+    {"name": "neither", "src": "harness.cpp", "flags": ["-O1"]},
     # the same probes under ASan + UBSan: a read or write outside the object (or a wrapping pointer computation) BEFORE the
     # handler runs aborts the child ("crash" leg) instead of reaching it
     {"name": "asan", "src": "harness.cpp", "flags": ["-O0", "-DTETL_ENABLE_CONTRACT_CHECKS=1", "-fsanitize=address,undefined",
@@ -27,9 +35,25 @@ FLAVOURS = (("str", 4), ("str", 15), ("str", 16), ("str", 20), ("wstr", 15), ("w
 BIG = [-1, -2, 2**63, 2**63 - 1, 2**64 - 1 - 3, 2**32, 2**64 - 4]
 
 
+def gen_modes(out):
+    """the macro selection of _contracts/check.hpp: for each of the four combinations of TETL_ENABLE_CONTRACT_CHECKS /
+    TETL_ENABLE_CONTRACT_CHECKS_SAFE (the case is run by the build that has exactly this combination) the two macros used
+    directly, array::operator[] (a SAFE check) and chrono::day / month (an ordinary check), violated and not"""
+    for c in (0, 1):
+        for s in (0, 1):
+            M = f"mode {c} {s}"
+            for v in (0, 1, 5):
+                out += [f"{M} pre {v}", f"{M} safe {v}"]
+            for i in range(0, 8):
+                out += [f"{M} arr {i}", f"{M} carr {i}"]
+            for d in (0, 1, 255, 256, 1000):
+                out += [f"{M} day {d}", f"{M} month {d}"]
+
+
 def gen_more(out):
     """inplace_string (every guarded operation at and beyond its boundary, plus the clamping ones that must never fire)
     and the remaining components"""
+    gen_modes(out)
     for (flavour, cap) in FLAVOURS:
         for k in sorted({0, 1, 2, cap - 1, cap}):
             S = f"{flavour} {cap} {k}"
@@ -81,8 +105,8 @@ def gen_more(out):
                         out += [f"{S} app_view_sub {ls} {ps} {c}", f"{S} asg_view_sub {ls} {ps} {c}", f"{S} ctor_view_sub {ls} {ps} {c}"]
             # range / view / C-string constructors and assignments, operator+, the iterator categories of append(first, last)
             for n in sorted({0, 1, room, room + 1, cap, cap + 1, 26}):
-                for o in ("ctor_rng", "ctor_rev", "ctor_fwd", "ctor_view", "ctor_cstr", "asg_rng", "asg_rev", "asg_fwd", "asg_view",
-                          "opeq_view", "asg_cstr2", "app_rev", "app_fwd", "app_view", "app_cstr", "plus_cstr"):
+                for o in ("ctor_rng", "ctor_rev", "ctor_ra", "ctor_fwd", "ctor_view", "ctor_cstr", "asg_rng", "asg_rev", "asg_ra", "asg_fwd",
+                          "asg_view", "opeq_view", "asg_cstr2", "app_rev", "app_ra", "app_fwd", "app_view", "app_cstr", "plus_cstr"):
                     out.append(f"{S} {o} {n}")
                 if n <= cap:
                     out.append(f"{S} plus_str {n}")
@@ -173,7 +197,7 @@ STR_OPS = {  # op -> argument kinds: p = position, c = count, l = source length 
     "substr": "pc", "app_view_sub": "lpc", "asg_view_sub": "lpc", "app_str_sub": "mpc", "ctor_ptr": "c", "ctor_fill": "c",
     "asg_fill": "c", "asg_ptr": "c", "app_fill": "c", "resize": "c", "app_ptr": "c", "app_str": "m", "app_rng": "l", "pluseq_str": "m",
     "ctor_rng": "l", "ctor_rev": "l", "ctor_fwd": "l", "ctor_view": "l", "asg_rng": "l", "asg_rev": "l", "asg_fwd": "l", "asg_view": "l",
-    "app_rev": "l", "app_fwd": "l", "plus_str": "m", "ctor_view_sub": "lpc", "ctor_str_sub": "mpc", "asg_str_sub": "mpc", "resize1": "c",
+    "app_rev": "l", "app_fwd": "l", "app_ra": "l", "asg_ra": "l", "ctor_ra": "l", "plus_str": "m", "ctor_view_sub": "lpc", "ctor_str_sub": "mpc", "asg_str_sub": "mpc", "resize1": "c",
     "copy": "cp",
 }
 
@@ -228,16 +252,24 @@ def gen(tier, rng):
                 out.append(f"vec {k} inn {pos} {n}")
             for n in [-2, -1] + list(range(0, room + 3)):
                 out.append(f"vec {k} irg {pos} {n}")
-            for n in range(0, room + 3):
-                out.append(f"vec {k} irg_fwd {pos} {n}")
+            for n in range(0, room + 4):
+                # every iterator category: forward-only (unsized), and the sized ones that are not pointers -
+                # array::rbegin()/rend(), reverse_iterator<T const*>, a random access class; insert and move_insert
+                out += [f"vec {k} irg_fwd {pos} {n}", f"vec {k} mins_fwd {pos} {n}"]
+            for n in [-5, -2, -1] + list(range(0, room + 4)):
+                # n < 0: last lies before first
+                out += [f"vec {k} irg_rev {pos} {n}", f"vec {k} irg_rev2 {pos} {n}", f"vec {k} irg_ra {pos} {n}",
+                        f"vec {k} mins_rev {pos} {n}", f"vec {k} mins_ra {pos} {n}", f"vec {k} mins {pos} {n}"]
             for l in range(pos - 2, sz + 3):
                 out.append(f"vec {k} err {pos} {l}")
         for n in list(range(0, 7)) + BIG:
             out += [f"vec {k} rsz {n}", f"vec {k} rsv {n}", f"vec {k} asn {n}", f"vec {k} ctor_n {n}", f"vec {k} ctor_nv {n}"]
         for n in range(-2, 8):
             out += [f"vec {k} asr {n}", f"vec {k} ctor_rg {n}"]
+            out += [f"vec {k} asr_rev {n}", f"vec {k} asr_rev2 {n}", f"vec {k} asr_ra {n}", f"vec {k} ctor_rg_rev {n}", f"vec {k} ctor_rg_ra {n}"]
             if n >= 0:
                 out += [f"vec {k} asr_fwd {n}", f"vec {k} ctor_rg_fwd {n}"]
+        out += [f"vec {k} ctor_carr 1", f"vec {k} ctor_carr 4"]
         for i in list(range(0, sz + 3)) + BIG:
             out += [f"vec {k} at {i}", f"vec {k} cat {i}"]
     for cap in (0, 4):
@@ -316,7 +348,17 @@ def gen(tier, rng):
             if not (-2**63 <= v <= 2**64 - 1):
                 return False
         return True
-    return [c for c in out if in_range(c)]
+    out = [c for c in out if in_range(c)]
+    # append / assign / constructor (str, pos, count) with pos > str.size(): the recorded defect region
+    # KF-C05-string-substr-pos-unchecked, under an op token of its own (`strpos`) so that only these cases are excused
+    def strpos(c):
+        t = c.split()
+        if t[0] in ("str", "wstr", "u16str") and len(t) >= 6 and t[3] in ("app_str_sub", "asg_str_sub", "ctor_str_sub", "ctor_str_pos"):
+            ls, ps = int(t[4]), int(t[5]) % 2**64
+            if ps > ls:
+                return "strpos " + c
+        return c
+    return [strpos(c) for c in out]
 
 
 def nontrivial(case, impl):
